@@ -64,6 +64,9 @@ def _expected(model, family, rec, params, decorated, Ktrain):
 def train_case(case):
     family, gemini, solver, bs, decorated, data_id, max_iter, lr, seed = case
     variant = 0
+    use_path = False
+    if data_id >= 20:            # sparse families trained through path(): the path has its own training loop
+        use_path, data_id = True, data_id - 20
     if data_id >= 10:            # Douglas with 3 cut points: several initialisations so that non-involutive cut orders occur
         variant, data_id = data_id - 10, 1
     n, d = (5, 2) if data_id == 0 else (6, 3)
@@ -83,13 +86,14 @@ def train_case(case):
         if data_id == 1:
             kw["feature_mask"] = np.array([True, False, True])
     if family in ("SparseLinearModel", "SparseMLPModel"):
-        kw["alpha"] = 0.05
+        kw["alpha"] = 0.05 if not use_path else 0.3
     model = M.make(family, **kw)
     if decorated:
         from gemclus import add_mlcl_constraint
         model = add_mlcl_constraint(model, ML, CL, FACTOR)
     spy = seams.BatchSpy(model)
-    where = dict(family=family, gemini=gemini if family not in ("RIM", "KernelRIM") else "mi", solver=solver, batch_size=bs, decorated=decorated)
+    where = dict(family=family, gemini=gemini if family not in ("RIM", "KernelRIM") else "mi", solver=solver, batch_size=bs, decorated=decorated,
+                 trained_by="path" if use_path else "fit")
     Ktrain = None
     if family == "KernelRIM":
         from sklearn.metrics import pairwise_kernels
@@ -135,7 +139,13 @@ def train_case(case):
                 state["noninv"] = 1
 
     with seams.optimiser_spy(cb):
-        model.fit(X)
+        if use_path:
+            import warnings
+            with warnings.catch_warnings():
+                warnings.simplefilter("ignore")
+                model.path(X, alpha_multiplier=4.0, min_features=1, max_patience=1)
+        else:
+            model.fit(X)
     # keep at most one violation per block
     seen, vs = set(), []
     for x in state["v"]:
@@ -161,11 +171,16 @@ def explorers(tier, seed):
             gems = [g for i, g in enumerate(M.ALL_GEMINIS) if i % 2 == rot or g in ("mi", "wasserstein_ovo")]
         for gemini in gems:
             for solver in ("adam", "sgd"):
-                for data_id in ((0, 1, 11, 12, 13, 14) if family == "Douglas" else (0, 1)):
-                    n = 5 if data_id == 0 else 6
+                ids = (0, 1, 11, 12, 13, 14) if family == "Douglas" else ((0, 1, 20, 21) if family in ("SparseLinearModel", "SparseMLPModel") else (0, 1))
+                for data_id in ids:
+                    if data_id >= 20 and solver == "sgd":
+                        continue
+                    n = 5 if data_id in (0, 20) else 6
                     sizes = [None] if family == "CategoricalModel" else (list(range(1, n + 1)) + [None])
                     if not thorough and family != "CategoricalModel":
                         sizes = [1, 2, n - 1, None] if data_id == 0 else ([3, n, None] if data_id == 1 else [2, None])
+                    if data_id >= 20:
+                        sizes = [2, None]
                     for bs in sizes:
                         for decorated in (False, True):
                             if thorough:
